@@ -8,7 +8,7 @@
     in each attempt); [run] / [exec] quantify over all schedules of the
     subscriber, the closer and the canceller. *)
 From Gnmi Require Import Base.Prelude Client.ClientModel Client.ClientCheck
-     Client.ClientProofs Client.ClientProofs2 Client.ClientProofs3.
+     Client.ClientProofs Client.ClientProofs2 Client.ClientProofs3 Client.ClientProofs4.
 
 (** The acceptance check is sound: an accepted recording is a trace of the model. *)
 Theorem C18_accepts_sound : forall rc l tr ss,
@@ -53,6 +53,15 @@ Theorem C18_disconnect_reset_discipline : forall rc sc tr s,
   run (step rc sc) init tr s -> k_disc rc tr = None.
 Proof. exact model_k_disc. Qed.
 Print Assumptions C18_disconnect_reset_discipline.
+
+(** connected_first, order_preserved, no notification lost on a stream that
+    ended before any Close / cancel was called, streams end at message
+    boundaries: the monitor [order_step] (K_P, tag 4) accepts every trace of
+    the model. *)
+Theorem C18_connected_first_order_preserved : forall rc sc tr s,
+  run (step rc sc) init tr s -> k_order rc sc tr = None.
+Proof. exact model_k_order. Qed.
+Print Assumptions C18_connected_first_order_preserved.
 
 (** at_most_one_after_close: the monitor [after_step] (K_P, tag 5) accepts
     every trace of the model. *)
